@@ -164,6 +164,11 @@ def place_effect_attrs(rng, p):
     """serde attributes with an observable effect, at random places of all three forwarding routes."""
     eff = {"deny": [], "alias": [], "default": [], "upper": []}
     for part in p["parts"]:
+        for h in part["handlers"]:
+            # a variant-level `rename_all` wins over the container's `rename_all_fields`: not inert next to the `upper` effect
+            if h.get("sv_attrs"):
+                h["sv_attrs"] = [a for a in h["sv_attrs"] if "rename_all" not in a]
+    for part in p["parts"]:
         kinds = ["instantiate", "migrate", "exec", "query", "sudo"] if part["id"] == "c" else ["exec", "query", "sudo"]
         part["msg_attrs"] = []
         for k in kinds:
